@@ -352,6 +352,76 @@ def work_worm(args):
     return ctx.export()
 
 
+def work_worm_cli(args):
+    '''the worm tool started the way an operator starts it (its __main__
+    block, argv): criteria on state-vector and value names whose roles must not
+    be confused (a state vector called like a value and vice versa)'''
+    tier, seed = args
+    import os
+    import sys
+    import dawgie.db
+    from . import world, c07
+
+    ctx = common.Ctx('C08', tier, seed, LEVEL)
+    ver = (1, 0, 0)
+    content = [(1, 'T', 't', 'a', ver, 's', 'v'), (1, 'T', 't', 'a', ver, 's', 'w'), (1, 'T', 't', 'a', ver, 'v', 's'),
+               (2, 'T', 't', 'a', ver, 'w', 'v'), (1, 'T1', 't', 'ab', ver, 's', 'v')]
+    argvs = [['-s', 's'], ['-v', 'v'], ['-s', 's', '-v', 'w'], ['-r', '1', '-T', 'T', '-s', 'v'], ['-v', 's'],
+             ['-a', 'a', '-v', 'w'], ['-r', '1'], ['-T', 'T1']]
+    flag = {'-r': 0, '-T': 1, '-t': 2, '-a': 3, '-s': 4, '-v': 5}
+    for argv in argvs:
+        w = world.StoreWorld()
+        try:
+            for k in content:
+                insert(k, 0)
+            before = set(dawgie.db._prime_keys())
+            w.as_foreman()
+            dawgie.db.close()
+            root = w.root
+
+            def tool():
+                import runpy
+                import logging
+                os.environ['DAWGIE_DOCKERIZED_AE_GIT_REVISION'] = 'verif'
+                sys.argv = ['worm.py'] + argv + [
+                    '--context-db-impl', 'shelve', '--context-db-name', 'verif',
+                    '--context-db-path', os.path.join(root, 'db'), '--context-data-dbs', os.path.join(root, 'dbs'),
+                    '--context-data-stg', os.path.join(root, 'stg'), '--context-data-log', os.path.join(root, 'logs')]
+                try:
+                    runpy.run_module('dawgie.db.tools.worm', run_name='__main__')
+                except SystemExit as e:
+                    return ('exit', e.code)
+                finally:
+                    logging.shutdown()
+                return ('exit', 0)
+
+            res = c07.in_child(tool)
+            ctx.count('removes')
+            rep = {'tier': 'worm-cli', 'content': content, 'argv': argv}
+            if not res or res[0] == 'EXC':
+                ctx.violation('C08/worm-cli/raises', f'worm {argv}: {res}', rep)
+                continue
+            w.activate()
+            dawgie.db.open()
+            after = set(dawgie.db._prime_keys())
+            crit = [None] * 6
+            for i in range(0, len(argv), 2):
+                crit[flag[argv[i]]] = int(argv[i + 1]) if argv[i] == '-r' else argv[i + 1]
+            want = set()
+            for key in before:
+                ids = key.split('.')
+                ids[0] = int(ids[0])
+                if all(e is None or i == e for i, e in zip(ids, crit)):
+                    want.add(key)
+            if before - after != want:
+                extra = sorted((before - after) - want)
+                ctx.violation('C08/worm-cli/' + ('removed-other-entries' if extra else 'not-removed'),
+                              f'worm {" ".join(argv)} removed {sorted(before - after)}, the criteria match {sorted(want)}', rep)
+        finally:
+            w.close()
+    return ctx.export()
+
+
 def work_faults(args):
     '''one failing catalogue write (the shelve table raises "No space left on
     device") at EVERY write position of a registration; afterwards the failed
@@ -427,6 +497,8 @@ def run(ctx):
     from . import world
     world.validate_digest_seam(common.scratch_root())
     for r in common.pmap(work_faults, [(ctx.tier, ctx.seed, p) for p in (0, 1, 2)]):
+        ctx.merge(r)
+    for r in common.pmap(work_worm_cli, [(ctx.tier, ctx.seed)]):
         ctx.merge(r)
     for r in common.pmap(work_wide, [(ctx.tier, ctx.seed, 0), (ctx.tier, ctx.seed, 1)]):
         ctx.merge(r)
